@@ -2,6 +2,7 @@
   C08 — Seeking equals playing up to the target, minus the sounding notes.
 -/
 import OpnVerif.Model.Seq
+import OpnVerif.Props.C09
 
 namespace Opn.C08
 open Opn Opn.Seq
@@ -59,5 +60,255 @@ theorem rowEvents_seek_eq_filtered (tk : Nat) (t : Rat) : ∀ (es : List Ev) (la
       cases j
       · exact rowEvents_seek_eq_filtered tk t es last' r'
       · rfl
+
+/-! ## a seek starts no note (lifted from the row to the whole seek) -/
+
+
+/-- an output that is not a note-on call into the synthesizer -/
+def NotOn (o : Out) : Prop := ∀ ch a b, o ≠ Out.rt tNoteOn ch a b
+
+theorem mem_ite_iff {α} (c : Prop) [Decidable c] (x : α) (l1 l2 : List α) :
+    x ∈ (if c then l1 else l2) ↔ (c ∧ x ∈ l1) ∨ (¬ c ∧ x ∈ l2) := by
+  by_cases h : c <;> simp [h]
+
+set_option maxHeartbeats 4000000 in
+/-- handleEvent calls rt_noteOn only for a note-on event -/
+theorem handleEvent_noteOn_only (s : Seq) (track : Nat) (e : Ev) (status : Int) (h : e.type ≠ tNoteOn) :
+    ∀ o ∈ (handleEvent s track e status).2.2, NotOn o := by
+  have hb : (e.type == tNoteOn) = false := by simpa using h
+  intro o ho ch a b heq
+  subst heq
+  unfold handleEvent at ho
+  simp only [hb] at ho
+  cases hm : s.invDelta.mul { n := readBE e.data, d := 1 } <;>
+    simp [hm, mem_ite_iff, apply_ite Prod.snd, tNoteOn, tNoteOff, tNoteTouch, tCtrl, tPatch, tChanAT, tWheel] at ho
+
+def AllNotOn (l : List Out) : Prop := ∀ o ∈ l, NotOn o
+
+theorem allNotOn_nil : AllNotOn [] := by intro o h; cases h
+
+theorem allNotOn_append {l1 l2 : List Out} (h1 : AllNotOn l1) (h2 : AllNotOn l2) : AllNotOn (l1 ++ l2) := by
+  intro o ho
+  rcases List.mem_append.1 ho with h | h
+  · exact h1 o h
+  · exact h2 o h
+
+theorem allNotOn_allNotesOff : AllNotOn allNotesOff := by
+  intro o ho ch a b heq
+  subst heq
+  simp [allNotesOff, tCtrl, tNoteOn] at ho
+
+theorem allNotOn_hook (c : Bool) (x : Out) (hx : NotOn x) : AllNotOn (if c then [x] else []) := by
+  intro o ho
+  cases c <;> simp at ho
+  subst ho; exact hx
+
+theorem notOn_loopStart : NotOn Out.loopStart := by intro ch a b h; cases h
+theorem notOn_loopEnd : NotOn Out.loopEnd := by intro ch a b h; cases h
+
+/-! eventStep in steps (each raises one of the loop flags handleEvent set) -/
+def raiseStart (r : RowRes) : RowRes :=
+  if r.s.loop.caughtStart then
+    { r with s := { r.s with loop := { r.s.loop with caughtStart := false } }, nStart := r.nStart + 1,
+             outs := r.outs ++ (if r.s.hookLoopStart then [Out.loopStart] else []) } else r
+def raiseStackStart (rowTime : Rat) (r : RowRes) : RowRes :=
+  if r.s.loop.caughtStackStart then
+    { r with s := { r.s with loop := { r.s.loop with caughtStackStart := false } }, nStackStart := r.nStackStart + 1,
+             outs := r.outs ++ (if r.s.hookLoopStart && r.s.loopStartTime ≥ rowTime then [Out.loopStart] else []) } else r
+def raiseBreak (r : RowRes) : RowRes :=
+  if r.s.loop.caughtStackBreak then
+    { r with s := { r.s with loop := { r.s.loop with caughtStackBreak := false } }, nStackBreaks := r.nStackBreaks + 1 } else r
+def raiseEnd (rowTime : Rat) (r : RowRes) : RowRes :=
+  if r.s.loop.caughtStackEnd then
+    { r with s := { r.s with loop := { r.s.loop with caughtStackEnd := false } }, nStackEnds := r.nStackEnds + 1, stackEndsTime := rowTime } else r
+
+theorem eventStep_steps (tk : Nat) (t : Rat) (e : Ev) (last : Int) (r : RowRes) :
+    eventStep tk t e last r =
+      (let h := handleEvent r.s tk e last
+       let r1 := raiseBreak (raiseStackStart t (raiseStart { r with s := h.1, outs := r.outs ++ h.2.2 }))
+       if r1.s.loop.caughtEnd || r1.s.loop.isStackEnd then ({ raiseEnd t r1 with doJump := true }, h.2.1, true) else (r1, h.2.1, false)) := by
+  rfl
+
+theorem raiseStart_outs (r : RowRes) (h : AllNotOn r.outs) : AllNotOn (raiseStart r).outs := by
+  unfold raiseStart; split
+  · exact allNotOn_append h (allNotOn_hook _ _ notOn_loopStart)
+  · exact h
+theorem raiseStackStart_outs (t : Rat) (r : RowRes) (h : AllNotOn r.outs) : AllNotOn (raiseStackStart t r).outs := by
+  unfold raiseStackStart; split
+  · exact allNotOn_append h (allNotOn_hook _ _ notOn_loopStart)
+  · exact h
+theorem raiseBreak_outs (r : RowRes) : (raiseBreak r).outs = r.outs := by
+  unfold raiseBreak; split <;> rfl
+theorem raiseEnd_outs (t : Rat) (r : RowRes) : (raiseEnd t r).outs = r.outs := by
+  unfold raiseEnd; split <;> rfl
+
+/-- one event that is not a note-on adds no note-on to the outputs of its row -/
+theorem eventStep_notOn (tk : Nat) (t : Rat) (e : Ev) (last : Int) (r : RowRes) (he : e.type ≠ tNoteOn) (hr : AllNotOn r.outs) :
+    AllNotOn (eventStep tk t e last r).1.outs := by
+  have hh := handleEvent_noteOn_only r.s tk e last he
+  rw [eventStep_steps]
+  simp only
+  have h1 : AllNotOn ({ r with s := (handleEvent r.s tk e last).1, outs := r.outs ++ (handleEvent r.s tk e last).2.2 } : RowRes).outs :=
+    allNotOn_append hr hh
+  have h2 := raiseStackStart_outs t _ (raiseStart_outs _ h1)
+  split
+  · show AllNotOn (raiseEnd t _).outs
+    rw [raiseEnd_outs, raiseBreak_outs]; exact h2
+  · show AllNotOn (raiseBreak _).outs
+    rw [raiseBreak_outs]; exact h2
+
+/-- a row replayed by a seek adds no note-on -/
+theorem rowEvents_seek_notOn (tk : Nat) (t : Rat) : ∀ (es : List Ev) (last : Int) (r : RowRes), AllNotOn r.outs →
+    AllNotOn (rowEvents true tk t es last r).1.outs
+  | [], _, r, h => by simpa [rowEvents] using h
+  | e :: es, last, r, h => by
+    by_cases he : e.type = tNoteOn
+    · rw [rowEvents_seek_skips_noteOn tk t e es last r he]
+      exact rowEvents_seek_notOn tk t es last r h
+    · have hb : (e.type == tNoteOn) = false := by simpa using he
+      have hs := eventStep_notOn tk t e last r he h
+      rw [rowEvents]
+      simp only [hb, Bool.and_false, Bool.false_eq_true, if_false]
+      generalize eventStep tk t e last r = st at hs
+      obtain ⟨r', last', j⟩ := st
+      cases j
+      · exact rowEvents_seek_notOn tk t es last' r' hs
+      · exact hs
+
+/-- the pass over the tracks -/
+theorem tracksPass_seek_notOn : ∀ (fuel tk : Nat) (r : RowRes), AllNotOn r.outs → AllNotOn (tracksPass true fuel tk r).outs
+  | 0, _, r, h => by simpa [tracksPass] using h
+  | fuel + 1, tk, r, h => by
+    rw [tracksPass]
+    cases ht : r.s.cur.track[tk]? with
+    | none => exact h
+    | some t =>
+      simp only
+      by_cases hc : (decide (t.last ≥ 0) && t.delay == 0) = true
+      · simp only [hc, if_true]
+        cases hrow : (r.s.tracks.getD tk [])[t.pos]? with
+        | none => exact h
+        | some row =>
+          simp only
+          have hr := rowEvents_seek_notOn tk row.time row.events t.last r h
+          split
+          · exact hr
+          · exact tracksPass_seek_notOn fuel (tk + 1) _ hr
+      · simp only [hc, Bool.false_eq_true, if_false]
+        exact tracksPass_seek_notOn fuel (tk + 1) r h
+
+theorem stackEndsN_notOn : ∀ (n : Nat) (s : Seq) (t : Rat) (outs : List Out), AllNotOn outs → AllNotOn (stackEndsN n s t outs).2
+  | 0, _, _, _, h => h
+  | n + 1, s, t, outs, h => by
+    have hle : AllNotOn (outs ++ [Out.loopEnd]) := allNotOn_append h (by intro o ho; simp at ho; subst ho; exact notOn_loopEnd)
+    unfold stackEndsN
+    simp only
+    repeat' split
+    all_goals first
+      | exact stackEndsN_notOn n _ t outs h
+      | exact allNotOn_append hle allNotOn_allNotesOff
+      | exact allNotOn_append h allNotOn_allNotesOff
+
+theorem loopTail_notOn (s : Seq) (nf : Bool) : AllNotOn (loopTail s nf).2 := by
+  rw [C09.loopTail_outputs]
+  exact allNotOn_append (allNotOn_hook _ _ notOn_loopEnd) allNotOn_allNotesOff
+
+/-- the tail of processEvents: what happens once the rows of all tracks have been handled -/
+def peFinish (r : RowRes) (rowBegin : Position) (s : Seq) (notFound : Bool) : Bool × Seq × List Out :=
+  if r.nStackStart > 0 then (true, { s with loop := stackUpN r.nStackStart s.loop rowBegin }, r.outs) else
+  let s := if r.nStackBreaks > 0 then { s with loop := stackBreakN r.nStackBreaks s.loop } else s
+  if r.nStackEnds > 0 then
+    let (s, outs) := stackEndsN r.nStackEnds s r.stackEndsTime r.outs
+    (true, s, outs)
+  else
+  if notFound || s.loop.caughtEnd then
+    let (s, o) := loopTail s notFound
+    (true, s, r.outs ++ o)
+  else (true, s, r.outs)
+
+/-- processEvents with its tail named: the rows are handled by `tracksPass`, the rest is bookkeeping and `peFinish` -/
+theorem processEvents_shape (s : Seq) (isSeek : Bool) :
+    ∃ (s0 s1 s2 : Seq) (pos : Position) (nf : Bool),
+      processEvents s isSeek = (if s0.atEnd then (false, s0, []) else
+        peFinish (tracksPass isSeek (s1.cur.track.length + 1) 0 { s := s1 }) pos s2 nf) :=
+  ⟨_, _, _, _, _, rfl⟩
+
+theorem peFinish_notOn (r : RowRes) (pos : Position) (s : Seq) (nf : Bool) (h : AllNotOn r.outs) : AllNotOn (peFinish r pos s nf).2.2 := by
+  unfold peFinish
+  simp only
+  repeat' split
+  all_goals first
+    | exact h
+    | exact stackEndsN_notOn _ _ _ _ h
+    | exact allNotOn_append h (loopTail_notOn _ _)
+
+/-- **one round of the sequencer in seek mode calls no rt_noteOn** -/
+theorem processEvents_seek_notOn (s : Seq) : AllNotOn (processEvents s true).2.2 := by
+  obtain ⟨s0, s1, s2, pos, nf, h⟩ := processEvents_shape s true
+  rw [h]
+  split
+  · exact allNotOn_nil
+  · exact peFinish_notOn _ _ _ _ (tracksPass_seek_notOn _ 0 _ allNotOn_nil)
+
+def AllAllNotOn (ls : List (List Out)) : Prop := ∀ l ∈ ls, AllNotOn l
+
+theorem allAll_cons {l : List Out} {ls : List (List Out)} (h : AllNotOn l) (hs : AllAllNotOn ls) : AllAllNotOn (l :: ls) := by
+  intro x hx
+  rcases List.mem_cons.1 hx with rfl | hx
+  · exact h
+  · exact hs x hx
+
+theorem seekInner_notOn (half : Rat) : ∀ (fuel af : Nat) (dst : Rat) (s : Seq) (outs : List (List Out)), AllAllNotOn outs →
+    AllAllNotOn (seekInner half fuel af dst s outs).2.1
+  | 0, _, _, _, _, h => h
+  | fuel + 1, af, dst, s, outs, h => by
+    rw [seekInner]
+    split
+    · have hp := processEvents_seek_notOn s
+      generalize processEvents s true = res at hp
+      obtain ⟨cont, s', o⟩ := res
+      simp only at hp ⊢
+      have hc := allAll_cons hp h
+      split
+      · exact hc
+      · split
+        · exact seekInner_notOn half fuel _ _ _ _ hc
+        · exact seekInner_notOn half fuel _ _ _ _ hc
+    · exact h
+
+theorem seekOuter_notOn (seconds half : Rat) : ∀ (fuel inner : Nat) (s : Seq) (outs : List (List Out)), AllAllNotOn outs →
+    AllAllNotOn (seekOuter seconds half fuel inner s outs).2
+  | 0, _, _, _, h => h
+  | fuel + 1, inner, s, outs, h => by
+    rw [seekOuter]
+    split
+    · simp only
+      have hi := seekInner_notOn half inner 10000
+        (fadd ({ s with cur := { s.cur with wait := fsub s.cur.wait seconds, absTime := fadd s.cur.absTime seconds } } : Seq).cur.wait half)
+        { s with cur := { s.cur with wait := fsub s.cur.wait seconds, absTime := fadd s.cur.absTime seconds } } outs h
+      exact seekOuter_notOn seconds half fuel inner _ _ hi
+    · exact h
+
+theorem flat_notOn (ls : List (List Out)) (h : AllAllNotOn ls) : AllNotOn ls.reverse.flatten := by
+  intro o hmem
+  obtain ⟨l, hl, hol⟩ := List.mem_flatten.1 hmem
+  exact h l (List.mem_reverse.1 hl) o hol
+
+theorem allNotOn_ite {c : Prop} [Decidable c] {x y : Seq × List Out × Rat} (hx : AllNotOn x.2.1) (hy : AllNotOn y.2.1) :
+    AllNotOn (if c then x else y).2.1 := by split <;> assumption
+
+/-- **C08: a seek starts no note** — whatever the song, the target, the granularity and the state before, none of the calls a seek makes
+    into the synthesizer is a note-on (the controller, program, pitch-bend, SysEx events up to the target are all replayed:
+    `rowEvents_seek_eq_filtered`) -/
+theorem seek_starts_no_note (s : Seq) (t gran : Rat) (fuel : Nat) :
+    ∀ o ∈ (seek s t gran fuel).2.1, ∀ ch a b, o ≠ Out.rt tNoteOn ch a b := by
+  have ho := fun (S0 : Seq) => flat_notOn _ (seekOuter_notOn t (fmul gran (1 / 2)) 4 fuel S0 [] (by intro l hl; cases hl))
+  show AllNotOn (seek s t gran fuel).2.1
+  unfold seek
+  split
+  · exact allNotOn_nil
+  · split
+    · exact allNotOn_nil
+    · exact allNotOn_ite (ho _) (ho _)
 
 end Opn.C08
